@@ -598,6 +598,14 @@ func httpBaseConfig(g *gen, clusters []string) string {
 	t.num("interval", 30)
 	t.section("notifier", "nulln", "extras")
 	t.str("app", "x")
+	// the listener whose handler the requests of this case go through: its timeout setting absent, 0 (none), or positive
+	if to := g.pick(-1, 0, 0, 2, 300); true {
+		t.section("httpserver", "api")
+		t.str("address", ":0")
+		if to >= 0 {
+			t.num("timeout", to)
+		}
+	}
 	return t.b.String()
 }
 
